@@ -66,6 +66,7 @@ def _learner_rec(obj, base, k, sink):
         return None
     P = {"kind": sink.kind, "K": sink.K, "D": sink.D, "metric": "rank", "arity": A.arity(sink.kind, sink.K, sink.D), "algo": TB.SPEC_NAME[name], "tol": 5, "tolv": 6}
     P.update({a: b for a, b in tabs.items() if a != "amb"})
+    P["under"] = 1
     return R.SessionRec(obj, P, extractor=TB.extractor(tabs["S"], tabs["RU"], name == "VHCT"), tid=0, call_timeout=60)
 
 
@@ -172,6 +173,7 @@ def _run(cfg):
     pat = cfg.get("pattern", "g")
     t0 = cfg.get("t0", 1)
     queries = set(cfg.get("queries", ()))
+    midq = set(cfg.get("midq", ()))
 
     def reward(pt):
         if pat == "g":
@@ -203,6 +205,10 @@ def _run(cfg):
         if rec.failed:
             break
         r = reward(pt)
+        if i in midq:
+            call("glp", lambda: rec.glp())
+            if rec.failed:
+                break
         call("recv", lambda: rec.recv(t0 + i, r, rcode=sink.rcode(r)))
         if rec.failed:
             break
